@@ -40,6 +40,7 @@ def cases(max_depth):
         "children": st.booleans(), "keep_id": st.booleans(),
         "detach": st.sampled_from([False, False, False, True, "top"]),
         "dup_id_chain": st.sampled_from([False, True]),
+        "linked": st.sampled_from([None, None, [0, 1], [1, 2], [2, 0], [3, 1], [1, 0]]),
         "nan": st.lists(st.tuples(st.integers(0, 20), st.sampled_from(["uncertainty", "value"])).map(list),
                         max_size=2),
         "edit_copy": st.booleans(),
@@ -205,6 +206,24 @@ def body(case):
         o = nodes[i % len(nodes)]
         if snap.kind(o) in ("sec", "prop"):
             o.name = None            # unnamed objects carry their id as name
+    # one Section may have resolved a link before it is copied
+    linked = None
+    if case.get("linked") and case["mode"] == "clone":
+        secs_ = [o for o in nodes if snap.kind(o) == "sec"]
+        if len(secs_) >= 2:
+            x = secs_[case["linked"][0] % len(secs_)]
+            y = secs_[case["linked"][1] % len(secs_)]
+            if x is not y and x not in snap.reachable([y]) and y not in snap.reachable([x]):
+                x.definition = None
+                x.reference = None
+                if not y.definition:
+                    y.definition = "definition of the link target"
+                try:
+                    x.link = y.get_path()
+                    linked = x if x.is_merged else None
+                except Exception:
+                    linked = None
+                nodes = all_nodes(doc)
     node = nodes[case["node"] % len(nodes)]
     mode = case["mode"]
     k = snap.kind(node)
@@ -372,6 +391,21 @@ def body(case):
             if p.values != [["1", "2"], ["3", "4"]]:
                 fails.append(failure("copy.values_arg_aliased", "editing a tuple (list) passed in through %s "
                                      "changed the Property: %r" % (how, p.values), how=how, tuple_dtype=True))
+        if linked is not None and case["edit_copy"] and not fails:
+            # cleaning the copy first must not change what cleaning the original does
+            classes.append("linked_section_in_original")
+            try:
+                if snap.kind(copy) in ("doc", "sec"):
+                    copy.clean()
+                doc.clean()
+                if linked.definition is not None or linked.reference is not None or linked.is_merged:
+                    fails.append(failure("copy.dependent", "after clean() of the copy, clean() of the original "
+                                         "left definition %r / reference %r on the linking Section (it had none "
+                                         "before the link was resolved)" % (linked.definition, linked.reference),
+                                         mode=mode, key="clean", edited="copy"))
+            except Exception as exc:
+                fails.append(failure("copy.dependent", "clean() of copy and original raised %r" % exc, mode=mode,
+                                     key="clean", edited="copy"))
         classes.extend("edit:" + t for t in done)
         has_vals = any(snap.kind(o) == "prop" and o.values for o in snap.reachable([copy]))
         nt = has_vals and any(t in VALUE_EDITS for t in done) and any(t in STRUCT_EDITS for t in done)
